@@ -1,5 +1,13 @@
 """C04 — time-triggered and sequential validation agree on instantaneous plans.
 
+P-bounded (real source executed symbolically, labelled bounded: ONE action instance with TWO effects): TimeTriggeredPlanValidator._apply_effects
+-- the place where the time-triggered validator merges the effects that happen at one instant -- against the pairwise transition
+specification of the sequential semantics (the one `_evaluate_effect` is proved against in C01): for two effects of one instance on fully
+symbolic ground fluents (equal or different), the values handed to make_child and the raising of UPConflictingEffectsException are exactly
+those of the sequential semantics: two assignments of one value are accepted, two different values conflict unless the fluent is Boolean
+(then it ends true), assignment mixed with increase / decrease conflicts, increases and decreases accumulate on the pre-state value, writes
+to different fluents are independent.  `_apply_effect` (grounding + evaluation of one effect) is used by contract.
+
 B: on the C01 problem family (instantaneous actions only, no timed effects/goals, initial state satisfies the
 invariants and bounds) every plan up to the length bound is scheduled at pairwise distinct rational times
 (several schedules per plan, including ones that reorder the instances): TimeTriggeredPlanValidator must
@@ -12,8 +20,7 @@ from fractions import Fraction
 from rtc import seqcheck as SC
 from spec import seqsem
 
-UNITS = []
-USES_THEORY = False
+USES_THEORY = True
 
 
 def signature(pr, plan):
@@ -83,3 +90,172 @@ def bounded(tier, seed):
 
 LEVEL = "other"
 EXPLANATION = __doc__
+
+
+# ======================================================================================================= bounded symbolic kernel
+import z3
+from pyvc.values import Ref, Seq, Map, Set, SBool, SRef, SUnion, SSeq, SMap, SSet, Rec, CList, CDict, Loc, ExcVal, fresh_name, zbool, Unsupported
+from pyvc.values import Bool as PBool
+from pyvc.verify import Unit
+from pyvc import builtins as B
+from contracts import theory as T
+from contracts.theory import OK, OKT, node_type
+import unified_planning.engines.plan_validator as _pv
+from unified_planning.model.effect import EffectKind as _EK
+from unified_planning.exceptions import UPConflictingEffectsException as _Conflict
+
+_F = T.FNode.z3sort()
+State04, SE04, AI04, Problem04 = Ref("State04"), Ref("StateEvaluator04"), Ref("ActionInstance04"), Ref("Problem04")
+_pb = B._uf("FNode.payload.BOOL_CONSTANT", _F, z3.BoolSort())
+_pi = B._uf("FNode.payload.INT_CONSTANT", _F, z3.IntSort())
+_pr = B._uf("FNode.payload.REAL_CONSTANT", _F, z3.RealSort())
+GROUND = z3.Function("ground_fluent_of_effect", T.Effect.z3sort(), _F)      # the ground fluent an effect writes (arguments evaluated in the pre-state)
+AMOUNT = z3.Function("effect_value_in_pre_state", T.Effect.z3sort(), _F)    # the effect's value evaluated in the pre-state (a constant)
+FIRES = z3.Function("effect_condition_holds_in_pre_state", T.Effect.z3sort(), z3.BoolSort())
+PRE = z3.Function("pre_state_value", _F, _F)
+MKNUM = z3.Function("constant_of", z3.RealSort(), _F)
+
+
+def is_num(x):
+    return z3.Or(node_type(x) == OKT.consts[OK.INT_CONSTANT], node_type(x) == OKT.consts[OK.REAL_CONSTANT])
+
+
+def numval(x):
+    return z3.If(node_type(x) == OKT.consts[OK.INT_CONSTANT], z3.ToReal(_pi(x)), _pr(x))
+
+
+def _kind(e):
+    return B._uf("Effect._kind", T.Effect.z3sort(), T.EKT.z3sort())(e)
+
+
+def _apply_effect_contract(eng, st, args, kw):
+    """contract of _apply_effect: {} when the condition is false, else {ground fluent: new value}; an increase / decrease is computed on
+    the value already in `updates`, else on the pre-state value"""
+    selfv, state, se, ai, eff, updates, problem = args
+    upd = eng.deref(st, updates)
+    e = eff.z
+    for s, fires in eng.branch(st, FIRES(e), "fires"):
+        if not fires:
+            yield s, s.alloc(CDict({}), "dict")
+            continue
+        g = GROUND(e)
+        EK = T.EKT.consts
+        if isinstance(upd, SMap):
+            has, val = z3.Select(upd.has, g), z3.Select(upd.val, g)
+        elif isinstance(upd, CDict):
+            has = z3.Or([k.z == g for k in upd.items]) if upd.items else z3.BoolVal(False)
+            val = PRE(g)
+            for k, v in upd.items.items():
+                val = z3.If(k.z == g, eng.deref(s, v).z, val)
+        else:
+            has, val = z3.BoolVal(False), PRE(g)
+        base = z3.If(has, val, PRE(g))
+        amount = AMOUNT(e)
+        newnum = MKNUM(z3.If(_kind(e) == EK[_EK.INCREASE], numval(base) + numval(amount), numval(base) - numval(amount)))
+        v = z3.If(_kind(e) == EK[_EK.ASSIGN], amount, newnum)
+        yield s, s.alloc(CDict({T.FNode.wrap(g): T.FNode.wrap(v)}), "dict")
+
+
+class ApplyEffectsPair(Unit):
+    prop = "C04"
+    name = "TimeTriggeredPlanValidator._apply_effects (one instance, two effects)"
+    doc = "the merge of two effects of one action instance is the pairwise transition specification of the sequential semantics"
+    allowed_raises = (_Conflict,)
+    kind = "unbounded"
+
+    def target(self):
+        return _pv.TimeTriggeredPlanValidator._apply_effects
+
+    def configure(self, eng):
+        eng.axioms += T.semantic_axioms((OK.BOOL_CONSTANT, OK.INT_CONSTANT, OK.REAL_CONSTANT, OK.OBJECT_EXP))
+        eng.contracts[_pv.TimeTriggeredPlanValidator._apply_effect] = _apply_effect_contract
+        x = z3.Real("x!mk")
+        a, b = z3.Const("a!c04", _F), z3.Const("b!c04", _F)
+        C = OKT.consts
+        eng.axioms += [z3.ForAll([x], z3.And(is_num(MKNUM(x)), numval(MKNUM(x)) == x), patterns=[MKNUM(x)]),
+                       # canonical constants (C16): equal values are the same node
+                       z3.ForAll([a, b], z3.Implies(z3.And(node_type(a) == C[OK.BOOL_CONSTANT], node_type(b) == C[OK.BOOL_CONSTANT], _pb(a) == _pb(b)), a == b),
+                                 patterns=[z3.MultiPattern(_pb(a), _pb(b))]),
+                       z3.ForAll([a, b], z3.Implies(z3.And(node_type(a) == C[OK.INT_CONSTANT], node_type(b) == C[OK.INT_CONSTANT], _pi(a) == _pi(b)), a == b),
+                                 patterns=[z3.MultiPattern(_pi(a), _pi(b))]),
+                       z3.ForAll([a, b], z3.Implies(z3.And(node_type(a) == C[OK.REAL_CONSTANT], node_type(b) == C[OK.REAL_CONSTANT], _pr(a) == _pr(b)), a == b),
+                                 patterns=[z3.MultiPattern(_pr(a), _pr(b))]),
+                       z3.ForAll([a], z3.Implies(node_type(a) == C[OK.REAL_CONSTANT], z3.Not(z3.IsInt(_pr(a)))), patterns=[_pr(a)])]
+
+        def make_child(eng_, st, selfv, args, kw):
+            st.ghost["child_updates"] = eng_.deref(st, kw.get("updated_values", args[0] if args else None))
+            yield st, State04.fresh("child")
+        State04.methods["make_child"] = make_child
+
+    def setup(self, eng, st):
+        w = st.alloc(Rec(_pv.TimeTriggeredPlanValidator, {}), "validator")
+        e1, e2 = T.Effect.fresh("e1"), T.Effect.fresh("e2")
+        ai = AI04.fresh("ai")
+        EK = T.EKT.consts
+        for e in (e1, e2):
+            k = _kind(e.z)
+            st.assume(z3.Or([k == EK[x] for x in (_EK.ASSIGN, _EK.INCREASE, _EK.DECREASE)]))
+            g = GROUND(e.z)
+            gbool = B._uf("Type.is_bool_type()", T.Type.z3sort(), z3.BoolSort())(B._uf("FNode.type", _F, T.Type.z3sort())(g))
+            isb = node_type(AMOUNT(e.z)) == OKT.consts[OK.BOOL_CONSTANT]
+            # C23: values have the fluent's type class; increase / decrease are numeric
+            st.assume(gbool == isb, z3.Implies(k != EK[_EK.ASSIGN], z3.And(is_num(AMOUNT(e.z)), is_num(PRE(g)), z3.Not(gbool))),
+                      z3.Or(isb, is_num(AMOUNT(e.z)), node_type(AMOUNT(e.z)) == OKT.consts[OK.OBJECT_EXP]))
+        effs = st.alloc(CList([e1, e2]), "list")
+        groups = st.alloc(CList([(effs, None, ai)]), "list")
+        return [w, State04.fresh("state"), SE04.fresh("se"), groups, Problem04.fresh("problem")], {}, dict(e1=e1, e2=e2)
+
+    def post(self, eng, ctx, st, out):
+        e1, e2 = ctx["e1"].z, ctx["e2"].z
+        EK = T.EKT.consts
+        g1, g2 = GROUND(e1), GROUND(e2)
+        f1, f2 = FIRES(e1), FIRES(e2)
+        a1, a2 = _kind(e1) == EK[_EK.ASSIGN], _kind(e2) == EK[_EK.ASSIGN]
+        v1 = AMOUNT(e1)
+        isbool = node_type(v1) == OKT.consts[OK.BOOL_CONSTANT]
+        same = z3.And(f1, f2, g1 == g2)
+        v2 = AMOUNT(e2)
+        conflict = z3.And(same, z3.Or(z3.And(a1, a2, v1 != v2, z3.Not(isbool)), a1 != a2))
+        if out[0] == "raise":
+            st.oblige("UPConflictingEffectsException only for a conflict of the sequential semantics", conflict)
+            return
+        st.oblige("a conflict of the sequential semantics is rejected", z3.Not(conflict))
+        upd = st.ghost.get("child_updates")
+        if upd is None:
+            st.oblige("the successor is built by make_child", z3.BoolVal(False))
+            return
+
+        def lookup(g):
+            if isinstance(upd, SMap):
+                return z3.Select(upd.has, g), z3.Select(upd.val, g)
+            if isinstance(upd, CDict):
+                has = z3.Or([k.z == g for k in upd.items]) if upd.items else z3.BoolVal(False)
+                val = PRE(g)
+                for k, v in upd.items.items():
+                    val = z3.If(k.z == g, eng.deref(st, v).z, val)
+                return has, val
+            if isinstance(upd, B.PendingEmpty):
+                return z3.BoolVal(False), PRE(g)
+            raise Unsupported(f"updates {upd!r}")
+
+        def inc(e, base):
+            return z3.If(_kind(e) == EK[_EK.INCREASE], numval(base) + numval(AMOUNT(e)), numval(base) - numval(AMOUNT(e)))
+        h1, w1 = lookup(g1)
+        h2, w2 = lookup(g2)
+        # effect 1's fluent
+        st.oblige("a fluent is written iff an effect on it fires", z3.And(h1 == z3.Or(f1, z3.And(f2, g1 == g2)), h2 == z3.Or(f2, z3.And(f1, g1 == g2))))
+        st.oblige("only e1 writes its fluent: assigned value / pre-state value +- amount",
+                  z3.Implies(z3.And(f1, z3.Not(same)), z3.If(a1, w1 == v1, z3.And(is_num(w1), numval(w1) == inc(e1, PRE(g1))))))
+        st.oblige("only e2 writes its fluent: assigned value / pre-state value +- amount",
+                  z3.Implies(z3.And(f2, z3.Not(same)), z3.If(a2, w2 == v2, z3.And(is_num(w2), numval(w2) == inc(e2, PRE(g2))))))
+        st.oblige("two assignments of one fluent: the common value, or true for a Boolean assigned both values",
+                  z3.Implies(z3.And(same, a1, a2), z3.If(v1 == v2, w1 == v1, z3.And(node_type(w1) == OKT.consts[OK.BOOL_CONSTANT], _pb(w1)))))
+        st.oblige("two increases / decreases of one fluent accumulate on the pre-state value",
+                  z3.Implies(z3.And(same, z3.Not(a1), z3.Not(a2)),
+                             z3.And(is_num(w1), numval(w1) == z3.If(_kind(e2) == EK[_EK.INCREASE], inc(e1, PRE(g1)) + numval(v2), inc(e1, PRE(g1)) - numval(v2)))))
+
+
+UNITS = [ApplyEffectsPair()]
+TRUSTED = ["_apply_effect (grounding and pre-state evaluation of one effect) is used by contract; the unit covers one action instance with two effects "
+           "(every pair of effect kinds, equal or different ground fluents): a bounded symbolic check of the real merge code, not a proof for any number of effects",
+           "constants are canonical (C16); values have the fluent's type class (C23)"]
